@@ -32,22 +32,22 @@ def run(ctx):
     quick = ctx.tier == "quick"
     rng = random.Random(ctx.seed * 31337 + 5)
     feat = dict(chain=0.6, order_only=0.4, deps=0.5, restat=0.15, pools=0.3, vals=0.2)
-    items = sched.small_scenarios(ctx, "C05", 5000 if quick else 60000, rng, size=(2, 6), cap=150 if quick else 2500, feat=feat,
+    items = sched.small_scenarios(ctx, "C05", 5000 if quick else 25000, rng, size=(2, 6), cap=150 if quick else 400, feat=feat,
                                   faults=True, with_history=0.35)
     retry = {"op": "build", "targets": None, "j": 2, "k": 0, "sched": {"mode": "prng", "seed": 5}}
     for scn, info in items:
         ex = scn["steps"][info["explore_step"]]
         ex["sched"]["then_cap"] = 12
         ex["then"] = [dict(retry, targets=ex["targets"])]
-    items += missing_source_family(ctx, rng, 300 if quick else 6000)
+    items += missing_source_family(ctx, rng, 300 if quick else 2500)
     sched.run_explore(ctx, "C05", items)
     # real processes: exit codes and death by signal through the real subprocess layer
     from .. import e2e
-    seeds = [rng.randint(1, 10 ** 9) for _ in range(120 if quick else 2500)]
+    seeds = [rng.randint(1, 10 ** 9) for _ in range(120 if quick else 800)]
     e2e.parallel(lambda sd: e2e.c05_case(ctx, sd), seeds)
     ctx.rule = ("graphs of 2..6 statements x fault plans x -k x -j x all completion orders (cap %d per graph); retry invocation for the "
                 "first 12 schedules of each graph; missing-source family; real-binary runs in which commands exit with codes 1..255 or are killed by a signal; distinct_nontrivial = distinct (scenario, interleaving) with "
-                ">= 2 commands" % (150 if quick else 2500))
+                ">= 2 commands" % (150 if quick else 400))
 
 
 def missing_source_family(ctx, rng, n):
